@@ -9,6 +9,8 @@ pub struct NCb {
     pub out: Vec<(u8, Vec<u8>)>,
     /// fault injection: the send callback reports an error (nothing is sent)
     pub fail_sends: bool,
+    /// fault injection: sends to this address fail
+    pub fail_addr: Option<u8>,
 }
 impl n6::Callback<u8> for NCb {
     type Error = Never;
@@ -19,7 +21,7 @@ impl n6::Callback<u8> for NCb {
         }
     }
     fn send(&mut self, addr: u8, data: &[u8]) -> Result<(), Never> {
-        if self.fail_sends {
+        if self.fail_sends || self.fail_addr == Some(addr) {
             return Err(Never);
         }
         self.out.push((addr, data.to_vec()));
@@ -218,6 +220,7 @@ impl NetWorld {
             return out;
         }
         self.cb.fail_sends = act["fail"].as_bool().unwrap_or(false);
+        self.cb.fail_addr = act["failaddr"].as_str().map(addr_of);
         let net = &mut self.net;
         let cb = &mut self.cb;
         let r: Result<(String, Vec<Value>, Option<u32>), String> = match a {
@@ -323,6 +326,7 @@ impl NetWorld {
             Err(m) => out.res = format!("panic: {} @ {}", m, vh_common::last_panic_location()),
         }
         self.cb.fail_sends = false;
+        self.cb.fail_addr = None;
         out.sends = self.collect(&pre);
         out
     }
